@@ -1,5 +1,6 @@
 """C06  History report attributes every matching commit to the right build per branch  (ak/ghist.py)"""
 import ast
+import copy
 import hashlib
 import io
 import itertools
@@ -302,16 +303,28 @@ class _Ref:
 
 
 class _Remote:
-    def __init__(self, refs):
+    def __init__(self, refs, repo=None):
         self.refs = refs
+        self._repo = repo
+
+    def fetch(self):
+        if self._repo is not None:
+            self._repo.fetches += 1
 
 
 class MockRepo:
-    """the attribute surface ak.ghist reads from a git.Repo (cf. tests/mock_git.py)"""
+    """the attribute surface ak.ghist reads from a git.Repo (cf. tests/mock_git.py).
+    [load] replaces the whole content in place: the ProjectRepo keeps the same repo object while the
+    repository changes (new commits, tags, heads, branches); every inner object is created afresh, as
+    GitPython does when it re-reads the repository."""
 
     def __init__(self, case):
         self.git_dir = "/nonexistent/c06"
         self.working_dir = self.git_dir
+        self.fetches = 0
+        self.load(case)
+
+    def load(self, case):
         ids = case.get("ids") or list(range(len(case["commits"])))
         self.commits = [_Commit(i, ids[i], spec) for i, spec in enumerate(case["commits"])]
         for c, spec in zip(self.commits, case["commits"]):
@@ -319,7 +332,7 @@ class MockRepo:
         self.by_sha = {c.hexsha: c for c in self.commits}
         remote = case["remote"]
         self.branch_refs = [_Ref(name, self.commits[i]) for name, i in case["refs"]]
-        self.remotes = {remote: _Remote([r for r in self.branch_refs if r.name.startswith(remote + "/")])}
+        self.remotes = {remote: _Remote([r for r in self.branch_refs if r.name.startswith(remote + "/")], self)}
         self.tag_refs = []
         for c, spec in zip(self.commits, case["commits"]):
             for t in spec.get("tags", []):
@@ -387,31 +400,58 @@ def impl_run(case):
                 nums.append(None)
             return ghist.BuildNumData(*nums)
 
+    def one_report(coll, repo, text):
+        try:
+            data = coll.make_reports_data(text)
+            (_rid, rg), = data
+            out = []
+            for br in rg.branches:
+                bl = []
+                for rb in br.get_rbuilds_list():
+                    bn = rb.build_num
+                    rcs = [[rc.commit.idx, 1 if rc.is_explicit else 0]
+                           for rc in sorted(rb.rcommits.values(), key=lambda c: -c.iid)]
+                    listed = [rc.commit.idx for rc in rb.get_printable_rcommits()]
+                    bl.append([rb.build_type, [bn.major, bn.minor, bn.patch, bn.build],
+                               rb.rcommit.commit.idx if rb.rcommit is not None else -1, rcs, listed])
+                out.append([br.branch_name, bl])
+        except Exception as e:
+            return {"r": ["err", SX.exc_name(e)]}
+        res = {"r": ["ok", out]}
+        try:
+            text = str(ghist.GHistReport(data, ghist.ReportFormatter()))
+            res["printed"] = _parse_printed(text, repo)
+        except Exception as e:
+            res["printed"] = ["err", SX.exc_name(e)]
+        return res
+
+    if k == "session":
+        # ONE ProjectRepo / ReposCollection for the whole session; the repository changes between the reports
+        steps = case["steps"]
+        repo = MockRepo(steps[0])
+        try:
+            coll = ghist.ReposCollection({"r": HRepo("r", repo, steps[0]["remote"])})
+        except Exception as e:
+            return {"steps": [{"r": ["err", SX.exc_name(e)]} for _ in steps]}
+        obs = []
+        for j, st in enumerate(steps):
+            if j:
+                repo.load(st)
+            if st.get("sync"):
+                try:
+                    coll.sync()
+                except Exception as e:
+                    obs.append({"r": ["err", SX.exc_name(e)]})
+                    continue
+            obs.append(one_report(coll, repo, st["text"]))
+        return {"steps": obs}
+
     repo = MockRepo(case)
     try:
         coll = ghist.ReposCollection({"r": HRepo("r", repo, case["remote"])})
-        data = coll.make_reports_data(case["text"])
-        (_rid, rg), = data
-        out = []
-        for br in rg.branches:
-            bl = []
-            for rb in br.get_rbuilds_list():
-                bn = rb.build_num
-                rcs = [[rc.commit.idx, 1 if rc.is_explicit else 0]
-                       for rc in sorted(rb.rcommits.values(), key=lambda c: -c.iid)]
-                listed = [rc.commit.idx for rc in rb.get_printable_rcommits()]
-                bl.append([rb.build_type, [bn.major, bn.minor, bn.patch, bn.build],
-                           rb.rcommit.commit.idx if rb.rcommit is not None else -1, rcs, listed])
-            out.append([br.branch_name, bl])
     except Exception as e:
         return {"r": ["err", SX.exc_name(e)]}
-    res = {"r": ["ok", out]}
-    try:
-        text = str(ghist.GHistReport(data, ghist.ReportFormatter()))
-        res["printed"] = _parse_printed(text, repo)
-    except Exception as e:
-        res["printed"] = ["err", SX.exc_name(e)]
-    return res
+    return one_report(coll, repo, case["text"])
 
 
 # ------------------------------------------------------------------ model side
@@ -436,6 +476,8 @@ def coq_case(case, obs):
         return f"SortKey {SX.cstr(case['name'])}"
     if k == "cmp":
         return f"Cmp {SX.cstr(case['a'])} {SX.cstr(case['b'])}"
+    if k == "session":
+        return "Session " + SX.clist(f"({SX.cbool(_checkable(st, None))}, {coq_history(st)})" for st in case["steps"])
     return f"Report {SX.cbool(_checkable(case, obs))} {coq_history(case)}"
 
 
@@ -448,17 +490,10 @@ def in_model(case, obs):
     return True
 
 
-def expected_sx(case, obs):
+def _expected_report(case, obs):
     r = obs["r"]
-    k = case["k"]
-    if k == "sortkey":
-        if r[0] != "ok":
-            return SX.dumps(SX.err(r[1]))
-        return SX.dumps([[0, x[1]] if x[0] == 0 else [1, SX.s(x[1])] for x in r[1]])
-    if k == "cmp":
-        return SX.dumps(r[1]) if r[0] == "ok" else SX.dumps(SX.err(r[1]))
     if r[0] != "ok":
-        return SX.dumps([SX.err(r[1]), 2 if not _checkable(case, obs) else 0])
+        return [SX.err(r[1]), 2 if not _checkable(case, obs) else 0]
     out = []
     for name, builds in r[1]:
         out.append([SX.s(name), [[b[0], b[1], b[2], b[3], b[4]] for b in builds]])
@@ -466,7 +501,21 @@ def expected_sx(case, obs):
     if _checkable(case, obs):
         sigs = {sig for sig, _ in check_report(case, [[n, b] for n, b in r[1]], stable_only=True)}
         bit = 0 if sigs & STATEMENT_SIGS else 1
-    return SX.dumps([SX.ok(out), bit])
+    return [SX.ok(out), bit]
+
+
+def expected_sx(case, obs):
+    k = case["k"]
+    if k == "session":
+        return SX.dumps([_expected_report(st, o) for st, o in zip(case["steps"], obs["steps"])])
+    r = obs["r"]
+    if k == "sortkey":
+        if r[0] != "ok":
+            return SX.dumps(SX.err(r[1]))
+        return SX.dumps([[0, x[1]] if x[0] == 0 else [1, SX.s(x[1])] for x in r[1]])
+    if k == "cmp":
+        return SX.dumps(r[1]) if r[0] == "ok" else SX.dumps(SX.err(r[1]))
+    return SX.dumps(_expected_report(case, obs))
 
 
 # signatures of the oracle that correspond to clauses (A)-(D) of coq/C06/Spec.v:branch_ok
@@ -686,7 +735,7 @@ def oracle(case, obs):
     if "__hang__" in obs:
         return [("hang", "call did not return")]
     k = case["k"]
-    r = obs["r"]
+    r = obs.get("r")
     if k == "sortkey":
         return []
     if k == "cmp":
@@ -701,6 +750,31 @@ def oracle(case, obs):
             return [("cmp-wrong", f"BranchName({case['a']!r}).cmp({case['b']!r}) has sign {r[1]} (lt={obs.get('lt')}), "
                      f"numeric-aware comparison gives {want}")]
         return []
+    if k == "session":
+        out = []
+        for j, (st, o) in enumerate(zip(case["steps"], obs["steps"])):
+            out += [(sig, f"report {j + 1} of {len(case['steps'])} made by one collection: {msg}")
+                    for sig, msg in _oracle_report(st, o)]
+        if len(obs["steps"]) != len(case["steps"]):
+            out.append(("report-raises", "the session did not produce every report"))
+        return _uniq(out)
+    return _uniq(_oracle_report(case, obs))
+
+
+def _uniq(out):
+    # one entry per signature is enough for a replay
+    seen = set()
+    uniq = []
+    for sig, msg in out:
+        if sig not in seen:
+            seen.add(sig)
+            uniq.append((sig, msg))
+    return uniq
+
+
+def _oracle_report(case, obs):
+    """the statement for one report of one repository state"""
+    r = obs["r"]
     if not in_window(case):
         return []          # outside the quantifier (obsolete-branch cut-off may apply)
     if r[0] != "ok":
@@ -714,14 +788,7 @@ def oracle(case, obs):
         got = [[name, cs] for name, builds in pr for _title, cs in builds]
         if want != got:
             out.append(("printed-differs", f"printed report lists {got}, the report data {want}"))
-    # one entry per signature is enough for a replay
-    seen = set()
-    uniq = []
-    for sig, msg in out:
-        if sig not in seen:
-            seen.add(sig)
-            uniq.append((sig, msg))
-    return uniq
+    return out
 
 
 # ------------------------------------------------------------------ generators
@@ -835,6 +902,71 @@ def gen_history(rng, n, *, p_merge=0.2, p_root=0.05, p_tag=0.25, p_match=0.35, n
     return {"k": "report", "remote": remote, "text": text, "refs": refs, "commits": commits, "ids": ids}
 
 
+def gen_session(rng, n=None):
+    """one long-lived collection, several reports; between two reports the repository changes: build tags appear
+    on existing commits, commits are pushed (heads move forward), branches are merged, heads are reset, branches
+    appear / disappear, the search text changes.  Every step is a complete repository state (commit k keeps its
+    number and its hexsha), so that the model - a pure function of the state - gives the expected report."""
+    cur = gen_history(rng, n if n is not None else rng.randrange(3, 15), p_clean=0.85,
+                      spread=rng.choice([100, 3600, DAY, 20 * DAY]))
+    cur["sync"] = False
+    steps = [cur]
+    build_no = 1000 + rng.randrange(100)
+    for _ in range(rng.choice([1, 1, 2, 2, 3])):
+        st = copy.deepcopy(cur)
+        commits, refs, ids, remote = st["commits"], st["refs"], st["ids"], st["remote"]
+        mine = [j for j, (nm, _) in enumerate(refs) if nm.startswith(remote + "/release/")
+                or nm in (remote + "/master", remote + "/main")]
+        times = [c["t"] for c in commits]
+        for _ in range(rng.choice([1, 1, 2, 3])):
+            op = rng.choice(["tag", "tag", "tag", "tag", "commit", "commit", "merge", "move", "branch", "drop", "text"])
+            if op == "tag":
+                # a build tag appears on an existing commit: anywhere, or strictly inside the history of a branch
+                build_no += rng.randrange(1, 4)
+                i = rng.randrange(len(commits))
+                if mine and rng.random() < 0.6:
+                    below = sorted(reach_sets(commits)[refs[rng.choice(mine)][1]])
+                    i = rng.choice(below)
+                commits[i].setdefault("tags", []).append(
+                    ["r", build_no, rng.choice([1, 1, 2, 10]), rng.choice([0, 2, 10, 250])])
+            elif op in ("commit", "merge") and mine:
+                j = rng.choice(mine)
+                ps = [refs[j][1]]
+                if op == "merge" and len(commits) > 1:
+                    q = refs[rng.choice(mine)][1] if rng.random() < 0.6 else rng.randrange(len(commits))
+                    if q not in ps:
+                        ps.append(q)
+                    if rng.random() < 0.5:
+                        ps.reverse()
+                msg = (st["text"] + " pushed") if (st["text"] and rng.random() < 0.5) else rng.choice(MSGS)
+                spec = {"p": ps, "m": msg, "t": rng.randrange(min(times), max(times) + 1)}
+                if rng.random() < 0.25:
+                    build_no += 1
+                    spec["tags"] = [["r", build_no, 1, rng.choice([0, 2])]]
+                commits.append(spec)
+                ids.append(max(ids) + rng.randrange(1, 50))
+                refs[j][1] = len(commits) - 1
+            elif op == "move" and mine:
+                refs[rng.choice(mine)][1] = rng.randrange(len(commits))
+            elif op == "branch":
+                used = {nm for nm, _ in refs}
+                free = [x for x in REL_NAMES if f"{remote}/release/{x}" not in used]
+                if free:
+                    refs.insert(rng.randrange(len(refs) + 1), [f"{remote}/release/{rng.choice(free)}", rng.randrange(len(commits))])
+                    mine = [j for j, (nm, _) in enumerate(refs) if nm.startswith(remote + "/release/")
+                            or nm in (remote + "/master", remote + "/main")]
+            elif op == "drop" and len(mine) > 1:
+                del refs[rng.choice(mine)]
+                mine = [j for j, (nm, _) in enumerate(refs) if nm.startswith(remote + "/release/")
+                        or nm in (remote + "/master", remote + "/main")]
+            elif op == "text":
+                st["text"] = rng.choice(TEXTS)
+        st["sync"] = rng.random() < 0.5
+        steps.append(st)
+        cur = st
+    return {"k": "session", "steps": steps}
+
+
 def gen_cases(rng, tier):
     big = tier == "thorough"
     cases = []
@@ -854,7 +986,7 @@ def gen_cases(rng, tier):
     for _ in range(1500 if big else 250):
         cases.append({"k": "cmp", "a": rng.choice(names), "b": rng.choice(names)})
     # histories
-    nhist = 6000 if big else 420
+    nhist = 6000 if big else 380
     for j in range(nhist):
         r = rng.random()
         if r < 0.15:
@@ -875,6 +1007,9 @@ def gen_cases(rng, tier):
         if rng.random() < 0.2:
             kw["p_tag"] = 0.6
         cases.append(gen_history(rng, n, **kw))
+    # one collection, several reports on a changing repository
+    for _ in range(800 if big else 70):
+        cases.append(gen_session(rng))
     return cases
 
 
@@ -882,10 +1017,14 @@ def search_cases(rng, tier):
     out = []
     for _ in range(3000):
         out.append(gen_history(rng, rng.randrange(2, 14)))
+    for _ in range(1500):
+        out.append(gen_session(rng, rng.randrange(2, 10)))
     return out
 
 
 def kind(case):
+    if case["k"] == "session":
+        return f"session:reports={len(case['steps'])}"
     if case["k"] != "report":
         return case["k"]
     n = len(case["commits"])
@@ -894,6 +1033,9 @@ def kind(case):
 
 
 def nontrivial(case, obs):
+    if case["k"] == "session":
+        oks = [o["r"][1] for o in obs.get("steps", []) if o.get("r") and o["r"][0] == "ok"]
+        return len(oks) >= 2 and any(sum(len(b) for _, b in r) >= 2 for r in oks) and any(a != b for a, b in zip(oks, oks[1:]))
     if case["k"] != "report":
         return case["k"] == "cmp" and case["a"] != case["b"]
     r = obs.get("r")
@@ -906,6 +1048,12 @@ def nontrivial(case, obs):
 def outcome(case, obs):
     if "__hang__" in obs:
         return "hang"
+    if case["k"] == "session":
+        rs = [o["r"] for o in obs["steps"]]
+        if any(r[0] != "ok" for r in rs):
+            return "session:" + next(r[1] for r in rs if r[0] != "ok")
+        changed = sum(1 for a, b in zip(rs, rs[1:]) if a != b)
+        return f"session:reports={len(rs)}:changed={changed}"
     r = obs["r"]
     if r[0] != "ok":
         return case["k"] + ":" + r[1]
@@ -917,6 +1065,26 @@ def outcome(case, obs):
 
 
 def shrink_candidates(case):
+    if case["k"] == "session":
+        steps = case["steps"]
+        for j in reversed(range(len(steps))):
+            if len(steps) > 1:
+                yield {"k": "session", "steps": steps[:j] + steps[j + 1:]}
+        # drop a branch ref in every step that has it
+        names = []
+        for st in steps:
+            for nm, _ in st["refs"]:
+                if nm not in names:
+                    names.append(nm)
+        for nm in names:
+            new = []
+            for st in steps:
+                st2 = dict(st)
+                st2["refs"] = [r for r in st["refs"] if r[0] != nm]
+                new.append(st2)
+            if all(st2["refs"] for st2 in new):
+                yield {"k": "session", "steps": new}
+        return
     if case["k"] != "report":
         return
     refs = case["refs"]
@@ -972,7 +1140,8 @@ RULE = ("generated single-repository histories of 1-45 commits: random DAGs with
         "order), several roots, parallel tagged sub-branches, build tags (release_M_m, master+VERSION file, several per "
         "commit, junk tags) on ordinary and merge commits, 1-5 release branches with numeric-tricky / equal-key names, "
         "master and/or main, foreign refs, heads at tips, at random commits, equal to or inside another branch's history, "
-        "matching messages at random commits, 10 search texts incl. the empty one, commit times inside (and 6% outside, "
+        "matching messages at random commits (text in the subject or only in the body), 10 search texts incl. the empty one, "
+        "release names that differ only in the third / fourth number, commit times inside (and 6% outside, "
         "model-only) the 30-day window; plus BranchName sort-item / cmp cases.  Non-trivial = a report with >= 2 builds "
         "on a history of >= 4 commits (or a cmp of two different names).")
 TRUSTED_BASE = [
